@@ -335,11 +335,19 @@ class Check(PropertyCheck):
                 idx_e = max(i for i, fr in enumerate(ev[1]) if fr[0] == "ERROR") if err else -1
                 idx_r = max(i for i, fr in enumerate(ev[1]) if fr[0] == "RSTACK")
                 failed_since = None if idx_r > idx_e else len(order)
-        # outcome OK only with a covering acknowledgement
-        acks = {}
-        cur = None
+        # outcome OK only with a covering acknowledgement in the very event that completed it
+        cur_frm = None
         for ev, st in zip(case["_events"], obs["steps"]):
-            pass
+            oks = [e for e in st if e[0] == "done" and e[2] == [0]]
+            if oks:
+                acks = []
+                if ev[0] == "frames":
+                    acks = [fr[3] for fr in ev[1] if fr[0] in ("DATA", "ACK", "NAK")]
+                if cur_frm is None or (cur_frm + 1) % 8 not in acks:
+                    return f"send {oks[0][1]} returned normally without an acknowledgement covering frame {cur_frm} (event {ev[0]})"
+            for e in st:
+                if e[0] == "w" and e[1] == "data":
+                    cur_frm = e[2]
         return None
 
     def nontrivial(self, case, obs):
